@@ -5,12 +5,16 @@
 package settle
 
 import (
+	"bytes"
 	"context"
 	"crypto/ecdsa"
+	"encoding/json"
 	"errors"
 	"fmt"
 	"io/ioutil"
 	"math/big"
+	"os"
+	"os/exec"
 	"strings"
 	"sync"
 
@@ -25,6 +29,7 @@ import (
 	"github.com/gauss-project/aurorafs/pkg/storage"
 	"github.com/gauss-project/aurorafs/pkg/subscribe"
 
+	"verifharness/internal/kit"
 	"verifharness/internal/sched"
 )
 
@@ -467,4 +472,73 @@ func (r *RecStore) Take() []RecvCall {
 	c := r.Calls
 	r.Calls = nil
 	return c
+}
+
+// ---------------------------------------------------------------------------
+// chunked execution
+// ---------------------------------------------------------------------------
+
+// ChunkSize scenarios are run per process: the services under test leave goroutines behind that cannot be
+// stopped (tickers, workers), and recognising a blocked goroutine dumps all goroutines.
+const ChunkSize = 250
+
+// ShouldChunk: a large run in the top-level process.
+func ShouldChunk(scs []kit.Scenario) bool {
+	return len(scs) > ChunkSize && os.Getenv("VERIF_DRV_CHILD") == ""
+}
+
+// Chunked executes the scenarios in child processes of this binary ("exec in out") and replays their events.
+func Chunked(scs []kit.Scenario, out *kit.Out) error {
+	dir, err := os.MkdirTemp("", "drv-chunk-")
+	if err != nil {
+		return err
+	}
+	defer os.RemoveAll(dir)
+	for lo := 0; lo < len(scs); lo += ChunkSize {
+		hi := lo + ChunkSize
+		if hi > len(scs) {
+			hi = len(scs)
+		}
+		in, tr := dir+"/scn.ndjson", dir+"/trace.ndjson"
+		var buf bytes.Buffer
+		for _, sc := range scs[lo:hi] {
+			b, err := json.Marshal(sc)
+			if err != nil {
+				return err
+			}
+			buf.Write(b)
+			buf.WriteByte('\n')
+		}
+		if err := os.WriteFile(in, buf.Bytes(), 0o600); err != nil {
+			return err
+		}
+		cmd := exec.Command(os.Args[0], "exec", in, tr)
+		cmd.Env = append(os.Environ(), "VERIF_DRV_CHILD=1")
+		var stderr bytes.Buffer
+		cmd.Stderr = &stderr
+		if err := cmd.Run(); err != nil {
+			return fmt.Errorf("chunk %d-%d: %v: %s", lo, hi, err, stderr.String())
+		}
+		data, err := os.ReadFile(tr)
+		if err != nil {
+			return err
+		}
+		for _, line := range bytes.Split(data, []byte{'\n'}) {
+			if len(line) == 0 {
+				continue
+			}
+			var e kit.Ev
+			if err := json.Unmarshal(line, &e); err != nil {
+				return err
+			}
+			if e["op"] == "reset" {
+				scn, _ := e["scn"].(float64)
+				delete(e, "op")
+				out.Begin(int(scn), e)
+			} else {
+				out.Emit(e)
+			}
+		}
+	}
+	return nil
 }
